@@ -109,6 +109,11 @@ def run(F, cfg, inp):
             x = F.Fxp(0j, s, n, f, **kw)
         ob = dict(dtype=x.dtype)
         y = F.Fxp(None, dtype=x.get_dtype('fxp'))
+        tmpl = F.Fxp(None, not s, 12, 3)
+        yl = F.Fxp(None, like=tmpl, dtype=x.get_dtype('fxp'))          # the dtype string overrides the sizes (and the complex flag) of a like= template
+        ob['ctor_like'] = C.fmt_of(yl) + [yl.vdtype == complex]
+        g1, g2, g3 = x.get_dtype('Q') if n - f >= 0 else None, x.get_dtype('fxp'), x.get_dtype()
+        ob['get_dtype_sequence'] = [g2, g3]                              # asked in both notations one after the other
         z = F.Fxp(1.5, True, 16, 2)           # an ordinary object holding a value, re-formatted by its dtype string
         z.resize(dtype=x.get_dtype('fxp'))
         ob['ctor'] = C.fmt_of(y) + [y.vdtype == complex]
@@ -165,7 +170,11 @@ def post(cfg, inp, ob):
     p = cfg['part']
     if p == 'end_to_end':
         s, n, f, cx = cfg['signed'], cfg['n_word'], cfg['n_frac'], cfg['complex']
-        out = [('ctor_roundtrip', ob['ctor'] == [s, n, f, cx]), ('resize_roundtrip', ob['resize'] == [s, n, f, cx])]
+        out = [('ctor_roundtrip', ob['ctor'] == [s, n, f, cx]), ('resize_roundtrip', ob['resize'] == [s, n, f, cx]),
+               ('ctor_with_like_template_roundtrip', ob['ctor_like'] == [s, n, f, cx])]
+        fx_ = 'fxp-%s%d/%d%s' % ('s' if s else 'u', n, f, '-complex' if cx else '')
+        q_ = ('Q' if s else 'UQ') + '%d.%d' % (n - f, f)
+        out.append(('get_dtype_after_other_notation', ob['get_dtype_sequence'] == [fx_, fx_ if cfg['default'] == 'fxp' else q_]))
         if 'ctor_q' in ob:
             out.append(('q_roundtrip', ob['ctor_q'] == [s, n, f]))
             out.append(('q_spelling', ob['q'] == ('Q' if s else 'UQ') + '%d.%d' % (n - f, f)))
